@@ -557,3 +557,51 @@ Theorem C06_origin_globals_nonvacuous :
   at_level2 SrcEx.cb3 SrcEx.ginv (into_inner (mt SrcEx.gst)) SrcEx.gmp SrcEx.cb3 SrcEx.ginv (into_inner (mt SrcEx.gst)) SrcEx.gmp.
 Proof. exact SrcEx.ex_globals. Qed.
 Print Assumptions C06_origin_globals_nonvacuous.
+
+(** (4, second part) THE ARGUMENTS WHOSE DEFAULTS WERE KEPT.  Class [difs_avoid_b f c] (boolean): no
+    [default_value_if] rule of any argument of the level reads an argument whose plain defaults [f]
+    changes.  Then every argument whose defaults were kept reports the same source and the same
+    values in both results ([view] = (source, raw values); the indices of DefaultValue entries can
+    differ, the index counter also runs over the changed defaults). *)
+Theorem C06_unchanged_class_spec : forall f c,
+  (difs_avoid_b f c =
+   forallb (fun b => forallb (fun r => negb (existsb (fun a => beq (a_id a) (fst (fst r)) && changed_b f a) (c_args c)))
+                             (a_default_ifs b)) (c_args c))
+  /\ (forall a, changed_b f a = negb (lbeq (f a) (a_default a)))
+  /\ (forall x y, lbeq x y = true -> x = y)
+  /\ (forall e, view e = (m_source e, m_raw e))
+  /\ (forall i, changed_id f c i <-> exists a, In a (c_args c) /\ a_id a = i /\ f a <> a_default a).
+Proof. intros. split; [reflexivity|]. split; [reflexivity|]. split; [exact lbeq_eq|]. split; [reflexivity|]. intros; split; intros H; exact H. Qed.
+Print Assumptions C06_unchanged_class_spec.
+
+Theorem C06_defaults_unchanged_args : forall f c i st st', wf_inv c i = true -> wf_inv (with_defaults f c) i = true ->
+  difs_avoid_b f c = true ->
+  run_inv c i = ROk st -> run_inv (with_defaults f c) i = ROk st' ->
+  forall a, In a (c_args c) -> f a = a_default a ->
+    opt_map view (fm_get (a_id a) (mt_args (mt st'))) = opt_map view (fm_get (a_id a) (mt_args (mt st))).
+Proof. exact defaults_unchanged_args. Qed.
+Print Assumptions C06_defaults_unchanged_args.
+
+(** ... for every id that is not a changed argument (group ids included) *)
+Theorem C06_defaults_unchanged_ids : forall f c i st st', wf_inv c i = true -> wf_inv (with_defaults f c) i = true ->
+  difs_avoid_changed f c ->
+  run_inv c i = ROk st -> run_inv (with_defaults f c) i = ROk st' ->
+  forall j, ~ changed_id f c j ->
+    opt_map view (fm_get j (mt_args (mt st'))) = opt_map view (fm_get j (mt_args (mt st))).
+Proof. exact defaults_unchanged_agree. Qed.
+Print Assumptions C06_defaults_unchanged_ids.
+
+(** Non-vacuity: changing only [kk] and [nn] satisfies the class, the hypotheses hold, both parses
+    succeed; the change [f2] of the earlier example is outside the class ([bb]'s rule reads [aa]). *)
+Theorem C06_defaults_unchanged_nonvacuous :
+  difs_avoid_b SrcEx.f3 SrcEx.cb = true /\ difs_avoid_b SrcEx.f2 SrcEx.cb = false /\
+  wf_inv (with_defaults SrcEx.f3 SrcEx.cb) SrcEx.tinv = true /\
+  run_inv SrcEx.cb SrcEx.tinv = ROk (SrcEx.st_of (run_inv SrcEx.cb SrcEx.tinv)) /\
+  run_inv (with_defaults SrcEx.f3 SrcEx.cb) SrcEx.tinv = ROk (SrcEx.st_of (run_inv (with_defaults SrcEx.f3 SrcEx.cb) SrcEx.tinv)) /\
+  SrcEx.summary (into_inner (mt (SrcEx.st_of (run_inv (with_defaults SrcEx.f3 SrcEx.cb) SrcEx.tinv)))) =
+    [([109], Some SCmdLine, [[[77]]]); ([102], Some SCmdLine, [[s_true]]);
+     ([97], Some SEnv, [[[69;49]]]); ([101], Some SEnv, [[[69;50]; [51]]]);
+     ([98], Some SDefault, [[[120]]]); ([103], Some SDefault, [[s_false]]);
+     ([104], Some SDefault, [[s_false]]); ([107], Some SDefault, [[[90]]]); ([110], Some SDefault, [[[78]]])].
+Proof. exact SrcEx.ex_unchanged. Qed.
+Print Assumptions C06_defaults_unchanged_nonvacuous.
